@@ -139,4 +139,12 @@ def charsetSeek (gid : Nat) : List (Nat × Nat) → Nat → Nat → Nat × Bool
     if gid ≥ e then (if e + len ≥ 4294967296 then (t + 1, true) else charsetSeek gid rest (e + len) (t + 1))
     else (t, false)
 
+/-- a loop that takes ONE item per turn from a finite source and returns when the source is exhausted
+(`cursor.read::<u8>()?` in `parse_bcd`, `token_iter.next()?` in the DICT `entries` iterator; read-fonts
+tables/postscript/dict.rs, text compared on every run) or when the item makes it stop (`stop`: the 0xF nibble / an
+invalid nibble / a full buffer; an operator token / a stack or blend error).  Result: (loop-body entries, items left). -/
+def consumeLoop {α : Type} (stop : α → Bool) : List α → Nat → Nat × List α
+  | [], t => (t + 1, [])
+  | a :: rest, t => if stop a then (t + 1, rest) else consumeLoop stop rest (t + 1)
+
 end FontVerif.LoopIter
